@@ -538,7 +538,7 @@ func (p *Path) storeThrough(ptr Value, v Value) {
 			p.store(r.(Ptr).c, v)
 			return
 		}
-		if t, ok := v.(*Term); ok {
+		if t, ok := v.(*Term); ok && x.n <= 32 {
 			for i := 0; i < x.n; i++ {
 				c := descend(x.arr.kids[x.off+i], x.path)
 				p.noteWrite(c)
@@ -1116,18 +1116,33 @@ func (p *Path) byteAt(arr *Cell, i int) *Term {
 	return c.val.(*Term)
 }
 
+// chunkWord concatenates up to 8 bytes (big-endian) into one term; extracts of a common word recombine.
+func (p *Path) chunkWord(arr *Cell, off, n int) *Term {
+	t := p.byteAt(arr, off)
+	for i := 1; i < n; i++ {
+		t = p.ts.Concat(t, p.byteAt(arr, off+i))
+	}
+	return t
+}
+
 func (p *Path) bytesEq(a *Cell, ao, an int, b *Cell, bo, bn int) *Term {
 	if an != bn {
 		return p.ts.False
 	}
 	res := p.ts.True
-	for i := 0; i < an; i++ {
-		res = p.ts.And(res, p.ts.Eq(p.byteAt(a, ao+i), p.byteAt(b, bo+i)))
+	for i := 0; i < an; i += 8 {
+		n := an - i
+		if n > 8 {
+			n = 8
+		}
+		res = p.ts.And(res, p.ts.Eq(p.chunkWord(a, ao+i, n), p.chunkWord(b, bo+i, n)))
 	}
 	return res
 }
 
-// bytesLess: lexicographic a < b (or a <= b when orEq).
+// bytesLess: lexicographic a < b (or a <= b when orEq). Equal-length stretches are compared as
+// big-endian words of up to 8 bytes (lexicographic order of equal-length strings = unsigned order of
+// their concatenation).
 func (p *Path) bytesLess(a *Cell, ao, an int, b *Cell, bo, bn int, orEq bool) *Term {
 	ts := p.ts
 	n := an
@@ -1143,9 +1158,26 @@ func (p *Path) bytesLess(a *Cell, ao, an int, b *Cell, bo, bn int, orEq bool) *T
 	} else {
 		res = ts.False
 	}
-	for i := n - 1; i >= 0; i-- {
-		x, y := p.byteAt(a, ao+i), p.byteAt(b, bo+i)
-		res = ts.Ite(ts.Ult(x, y), ts.True, ts.Ite(ts.Eq(x, y), res, ts.False))
+	// chunks from the back
+	type chunk struct{ off, n int }
+	var chunks []chunk
+	for i := 0; i < n; i += 8 {
+		c := n - i
+		if c > 8 {
+			c = 8
+		}
+		chunks = append(chunks, chunk{i, c})
+	}
+	for k := len(chunks) - 1; k >= 0; k-- {
+		c := chunks[k]
+		x, y := p.chunkWord(a, ao+c.off, c.n), p.chunkWord(b, bo+c.off, c.n)
+		if res.IsTrue() {
+			res = ts.Ule(x, y)
+		} else if res.IsFalse() {
+			res = ts.Ult(x, y)
+		} else {
+			res = ts.Or(ts.Ult(x, y), ts.And(ts.Eq(x, y), res))
+		}
 	}
 	return res
 }
